@@ -345,7 +345,49 @@ def framing_exhaustive_cases():
                sig="cid|splice")
 
 
+def registry_influence_cases(rng, n):
+    """"registry contents never influence the result": the content_id of a node built while the registry is crowded (one-byte
+    ids, so that the new node's id is already taken by another live node of its class, with other content) equals the
+    content_id of the same construction in an empty registry.  (Holds for any digest size: a content_id is a function of
+    the content.)"""
+    import gc
+    import pyoak.config as cfg
+    size0 = cfg.ID_DIGEST_SIZE
+    cfg.ID_DIGEST_SIZE = 1
+    try:
+        for _ in range(n):
+            gc.collect()
+            pnode.NODE_REGISTRY.clear()
+            g = zoo.Gen(rng, origins=True, serial=False)
+            spec = zoo.to_spec(g.tree(rng.choice([1, 2, 3, 5])))
+            g.pool.clear()
+            gc.collect()
+            pnode.NODE_REGISTRY.clear()
+            fresh = zoo.build(spec)
+            want = [fresh.content_id] + [c.content_id for c, *_ in zoo.positions(fresh)]
+            del fresh
+            gc.collect()
+            pnode.NODE_REGISTRY.clear()
+            crowd = [zoo.Leaf(v=i) for i in range(300)] + [zoo.Un(zoo.Leaf(v=-i)) for i in range(1, 120)] + \
+                    [zoo.Tup((zoo.Leaf(v=7000 + i),)) for i in range(120)] + [zoo.Bin(zoo.Leaf(v=i), zoo.Leaf(v=i + 1)) for i in range(120)]
+            again = zoo.build(spec)
+            got = [again.content_id] + [c.content_id for c, *_ in zoo.positions(again)]
+            fail = None
+            if got != want:
+                k = next(i for i, (x, y) in enumerate(zip(got, want)) if x != y)
+                fail = (f"content_id of position {k} is {got[k]} in a crowded registry and {want[k]} in an empty one "
+                        f"(ID_DIGEST_SIZE=1, {len(pnode.NODE_REGISTRY)} live nodes)")
+            yield Case("registry-influence", None, None, True, f"{zoo.show(again)} built in an empty and in a crowded registry",
+                       oracle_fail=fail, sig="cid|registry-influence")
+            del crowd, again
+    finally:
+        cfg.ID_DIGEST_SIZE = size0
+        gc.collect()
+        pnode.NODE_REGISTRY.clear()
+
+
 def cases(rng: random.Random, tier: str):
+    yield from registry_influence_cases(rng, 6 if tier == "quick" else 60)
     yield from framing_exhaustive_cases()
     yield from special_value_cases(rng)
     n_pairs = 250 if tier == "quick" else 6000
@@ -459,6 +501,29 @@ def cases(rng: random.Random, tier: str):
                     yield Case("splice", None, None, True, f"Two(a={a1!r}, b={b1!r}) vs Two(a={a2!r}, b={b2!r}) [framing {sep!r}]",
                                oracle_fail="different contents, same content_id / is_equal" if bad else None,
                                sig="cid|splice")
+            # value-substitution attack: if the digest input does not carry a (long) value itself but something
+            # derived from it, a node holding that derived text as its value has another content and must have another
+            # content_id.  What the input carries is read off the observed pre-image (framing learned from the probe above)
+            prefix = pre[: pre.index("QQQ")]
+            for k in (1, 64, 200, 1000, 2047, 2048, 2049, 4096, 5000, 70000):
+                v = ("ab1 cd2 " * (k // 8 + 1))[:k]
+                rec.table.clear()
+                n1 = zoo.Two(a=v, b="WWW")
+                pre1 = rec.table.get(n1.content_id, b"").decode("utf-8")
+                bad, what = None, f"Two(a=<{k} characters>, b='WWW')"
+                if pre1.startswith(prefix) and (sep + "WWW") in pre1:
+                    carried = pre1[len(prefix): pre1.index(sep + "WWW")]
+                    if carried != v:
+                        n2 = zoo.Two(a=carried, b="WWW")
+                        what += f" vs Two(a={carried[:80]!r}, b='WWW') (the text the digest input carries instead of the value)"
+                        if n1.content_id == n2.content_id or n1.is_equal(n2):
+                            bad = "different contents, same content_id / is_equal"
+                        del n2
+                other = zoo.Two(a=v[:-1] + "X", b="WWW")
+                if bad is None and (other.content_id == n1.content_id or other.is_equal(n1)):
+                    bad = "values that differ in their last character share a content_id"
+                yield Case("substitution", None, None, True, what, oracle_fail=bad, sig="cid|substitution")
+                del n1, other
     finally:
         pnode.hashlib = rec.real
     # cross-process: another hash seed
